@@ -4,8 +4,8 @@ import (
 	"encoding/binary"
 	"fmt"
 
-	v1 "github.com/celestiaorg/go-square/v2/proto/blob/v1"
 	square "github.com/celestiaorg/go-square/v2"
+	v1 "github.com/celestiaorg/go-square/v2/proto/blob/v1"
 	"github.com/celestiaorg/go-square/v2/share"
 	"google.golang.org/protobuf/proto"
 )
